@@ -232,19 +232,19 @@ def _next_with_timeout(it, limit):
     return box["v"]
 
 
-def pmap(fn_module, fn_name, items, initargs=(), jobs=None, chunksize=1):
+def pmap(fn_module, fn_name, items, initargs=(), jobs=None, chunksize=1, force_pool=False):
     """map ``module.fn`` over items in a process pool (fork, long lived
     workers).  ``module.fn_init(*initargs)`` runs once per worker if it
     exists.  Results come back in input order."""
     items = list(items)
     jobs = jobs or ncpu()
-    if jobs <= 1 or len(items) <= 1:
+    if (jobs <= 1 or len(items) <= 1) and not force_pool:
         _pool_init(fn_module, fn_name, initargs, pin=False)
         return _drop_crashes([_pool_call(a) for a in items])
     import concurrent.futures as cf
     ctx = multiprocessing.get_context("fork")
     # ProcessPoolExecutor (unlike multiprocessing.Pool) notices a worker that died
-    with cf.ProcessPoolExecutor(min(jobs, len(items)), mp_context=ctx, initializer=_pool_init,
+    with cf.ProcessPoolExecutor(max(1, min(jobs, len(items))), mp_context=ctx, initializer=_pool_init,
                                 initargs=(fn_module, fn_name, initargs)) as pool:
         try:
             # per-result watchdog: a lost work item must end the check with a harness error, never hang it
